@@ -87,6 +87,10 @@ def event_projects():
                                                                            "pub fn f2(app: AppHandle, y: OnlySecondSite) {\n    app.emit(\"changed\", y).unwrap();\n}\n\n"
                                                                            "pub fn f3(app: AppHandle) {\n    app.emit(\"changed\", 3).unwrap();\n}\n")]))
     P.append(("no-events", [("lib.rs", a)]))
+    # no command takes anything from the frontend: commands.ts still needs its `types` import for what the commands return
+    for k, rets in enumerate((["Vec<Foo>"], ["Option<Foo>", "Result<Vec<Kind>, String>"], ["HashMap<String, Wrap>", "(Foo, Kind)"], ["Result<Option<Vec<Foo>>, String>"], ["Foo"], ["Vec<Foo>", "i32"])):
+        body = HDR + DEFS + "".join(rg.command_src("fetch_%d_%d" % (k, j), [("app", "AppHandle")] if j % 2 else [], r) for j, r in enumerate(rets))
+        P.append(("commands-without-parameters-%d" % k, [("lib.rs", body)]))
     # names the generator makes up (parameter objects <Command>Params, the bindings commands.ts imports) against names the project chose
     P.append(("struct-named-like-its-commands-parameter-object", [("lib.rs", a + rg.struct_src("GetUserParams", [("id", "i32")]) +
                                                                     rg.command_src("get_user", [("params", "GetUserParams")], "Foo"))]))
